@@ -17,25 +17,34 @@ META = {
     "level_text": "props/C16.v, over the transition system of model/Server.v in which a client may send ANY byte string at any time and leave at any point: "
                   "(isolation) no event of, or on behalf of, one client changes the record of another connection; with a service class registered a connection's "
                   "service state, table and replies are a function of the requests decoded from its own buffer; a connection resolves only object ids it was itself "
-                  "given and never an id harvested on another connection; (confinement, threaded/forking) as long as nobody calls close() the accept loop takes the "
+                  "given and never an id harvested on another connection; (confinement, threaded/forking) as long as nobody calls close() and accept() itself does not fail with an OS error (or the tree's "
+                  "accept loop survives such errors: fact accept_survives_oserror, refutation c16_accept_error_refuted) the accept loop takes the "
                   "next queued connection whatever the clients did, a well-behaved client's request is served by its own worker from its own state with no hypothesis "
-                  "on the others, a worker's failure leaves every other connection untouched and the bookkeeping consistent; (thread pool) wherever a connection with a "
+                  "on the others, a worker's failure (a frame that raises, or ends in a BaseException) closes that connection, runs its hook once, removes its socket and leaves every "
+                  "other connection and the server untouched (the 'served from its own state' clause and the id clauses are definitional in this model: object ids are "
+                  "(owner connection, index) pairs; their content is checked by the harness against real ids); (thread pool) wherever a connection with a "
                   "complete request is, its next step is enabled unless it waits in the queue with no free worker -- and that can last for ever: refutation theorems "
                   "carry the witnesses (nbThreads = 2, two truncated-frame clients, one good client: the running server is quiescent with the good request unserved; "
                   "one client that never finishes authentication blocks the pool's accept loop).",
-    "level_note": "Partial: threads, processes, fork, poll and the kernel's accept queue appear only through their effect on the bookkeeping; descriptor exhaustion is outside. "
+    "level_note": "A complete message that makes the server wait for its sender (a nested request never answered, a reply never read) is the model's NStall: it "
+                  "blocks a reader exactly like an unfinished frame (generated: 'stall'; the never-read flavour is the same class and is not generated). Descriptor exhaustion "
+                  "enters as the event EAcceptFail. Partial: threads, processes, fork, poll and the kernel's accept queue appear only through their effect on the bookkeeping; descriptor exhaustion is outside. "
                   "zlib and the request decoder are parameters of the model (theorems hold for all of them); the extracted instance is given the decoder as a finite "
                   "table and, for well-formed requests, a placeholder payload of the same framing (the real payload carries run-time object ids). "
                   "Trusted: Coq kernel, pygen templates, extraction + driver, harness, harness/refcodec.py as the reading of the wire format.",
     "technique": "Coq: non-interference and invariants over an event transition system quantified over all byte strings + refutation witnesses; regenerated control "
                  "skeletons and facts; differential correspondence with real servers under scripted hostile clients; implementation-level oracle on every good client's replies",
-    "gen": ["server"],
-    "shapes": ["server.*"],
+    "gen": ["server", "channel", "stream", "protocol", "libinit"],
+    "shapes": ["server.*", "channel.*", "stream.SocketStream.*", "stream.Stream.poll", "stream.compat.*", "stream.retry_errnos",
+               "protocol.Connection.serve", "protocol.Connection.serve_all", "protocol.Connection.poll", "protocol.Connection._dispatch",
+               "protocol.Connection._dispatch_request", "protocol.Connection._send", "protocol.Connection.close", "protocol.Connection._cleanup",
+               "protocol.Connection.__init__", "protocol.Connection.sync_request", "protocol.Connection._netref_factory",
+               "protocol.DEFAULT_CONFIG.keys", "libinit.*"],
     "models": ["server"],
     "model_files": ["Server"],
     "assumptions": [
         "object ids are not reused while the harness keeps the service instances and their objects alive",
-        "a misbehaving client cannot exhaust the server's descriptors or memory within a history (resource exhaustion is outside the model)",
+        "memory exhaustion and thread-creation failure (spawn, os.fork) are outside the model; descriptor exhaustion is the event EAcceptFail",
         "the toy authenticator stands for any authenticator that reads from the socket before deciding",
     ],
 }
@@ -74,6 +83,7 @@ def gen_history(r, quick=True):
     bad = {}            # hostile clients: cid -> pending incomplete frame?
     stalled = set()
     killed = []
+    stallers = set()
 
     def probe():
         """a fresh well-behaved client: connect, get the root, call it, leave"""
@@ -100,7 +110,7 @@ def gen_history(r, quick=True):
         good = [c for c, a in g.alive.items() if a["served"] and c not in bad and a["ckind"] == "raw" and (a["auth"] == S.AUTH_OK or not cfg["auth"])]
         if x < 0.30:
             # a new hostile client, or an old one again
-            live_bad = [c for c in bad if isinstance(c, int) and c in g.alive and c not in stalled
+            live_bad = [c for c in bad if isinstance(c, int) and c in g.alive and c not in stalled and c not in stallers
                         and (not cfg["auth"] or g.alive[c]["auth"] == S.AUTH_OK)]
             if live_bad and r.random() < 0.4:
                 c = r.choice(live_bad)
@@ -115,6 +125,14 @@ def gen_history(r, quick=True):
                         stalled.add(c)
                     probe()
                     continue
+            if r.random() < 0.12 and not bad.get(c) and g.alive[c]["served"] and not starved() and g.busy is None:
+                # make the server wait for this client: a nested request it never answers
+                g.items.append(["stall", c])
+                stallers.add(c)
+                bad[c] = True
+                g.alive[c]["served"] = False
+                probe()
+                continue
             if r.random() < 0.15 and not bad.get(c) and g.alive[c]["served"] and not starved() and g.busy is None:
                 # make the server raise SystemExit while it serves this connection
                 g.items.append(["kill", c])
@@ -130,6 +148,16 @@ def gen_history(r, quick=True):
             if cfg["kind"] != "pool" and label in ("garbage-frame", "bad-zlib"):
                 g.alive[c]["served"] = False
             probe()
+        elif x < 0.34 and g.busy is None and not g.closed and len(g.ever) < 14 and cfg["kind"] != "oneshot":
+            # the process runs out of descriptors while a client connects: accept() fails with EMFILE
+            c = g.next_cid
+            g.next_cid += 1
+            g.items.append(["emfile", c])
+            g.ever.append(c)
+            g.alive[c] = {"ckind": "raw", "auth": S.AUTH_OK, "served": not starved(), "blocked": False}
+            g.tables[c] = []
+            if not starved():
+                g.good_req(c)
         elif x < 0.45 and [c for c in bad if isinstance(c, int) and c in g.alive]:
             c = r.choice([c for c in bad if isinstance(c, int) and c in g.alive])
             g.leave(c, r.choice(["rst", "rst", "fin"]))
@@ -174,6 +202,15 @@ def witnesses():
                             [["connect", 1, "raw", 0], ["connect", 2, "raw", 0], ["req", 1, S.QROOT, None, 0], ["req", 1, S.QMAKE, [o, 0], 0],
                              ["req", 2, S.QSTR, [o, 1], 0], ["req", 2, S.QROOT, None, 0], ["req", 2, S.QSTR, [o, 1], 0], ["req", 2, S.QDEL, [o, 1], 0],
                              ["req", 2, S.QMAKE, [o2, 0], 0], ["req", 1, S.QSTR, [o2, 2 if not cls else 1], 0], ["req", 1, S.QBUMP, [o, 0], 0], ["req", 2, S.QBUMP, [o2, 0], 0]]))
+    # clients that make the server wait for them (a nested request never answered): nbThreads of them, then a good client
+    for kind in ("threaded", "pool"):
+        base = {"kind": kind, "transport": "tcp", "auth": False, "cls": True, "nw": 2, "batch": 10}
+        out.append((dict(base), [["connect", 1, "raw", 0], ["connect", 2, "raw", 0], ["stall", 1], ["stall", 2], ["connect", 3, "raw", 0], ["req", 3, S.QROOT, None, 0]]))
+        out.append((dict(base), [["connect", 1, "raw", 0], ["stall", 1], ["connect", 3, "raw", 0], ["req", 3, S.QROOT, None, 0], ["leave", 1, "rst"], ["req", 3, S.QBUMP, [3, 0], 0]]))
+        # accept() fails with EMFILE while a client is being served
+        for transport in ("tcp", "unix"):
+            out.append((dict(base, transport=transport), [["connect", 1, "raw", 0], ["req", 1, S.QROOT, None, 0], ["emfile", 2], ["req", 1, S.QBUMP, [1, 0], 0],
+                                                          ["req", 2, S.QROOT, None, 0]]))
     # a client that makes the server raise SystemExit, once and nbThreads times, then a good client
     for kind in ("threaded", "pool"):
         base = {"kind": kind, "transport": "tcp", "auth": False, "cls": True, "nw": 2, "batch": 10}
@@ -216,7 +253,7 @@ def nontrivial(cfg, items):
     """at least one hostile event and one well-behaved request (or call) after it"""
     hostile_at = None
     for j, it in enumerate(items):
-        if it[0] in ("send", "hostile", "kill") or (it[0] == "connect" and cfg["auth"] and it[3] != S.AUTH_OK):
+        if it[0] in ("send", "hostile", "kill", "stall", "emfile") or (it[0] == "connect" and cfg["auth"] and it[3] != S.AUTH_OK):
             hostile_at = j if hostile_at is None else hostile_at
         elif hostile_at is not None and it[0] in ("req", "call"):
             if cfg["kind"] == "forking" or S.well_behaved(cfg, items, j):
@@ -233,7 +270,7 @@ def run(ctx):
     if model is None:
         ctx.tie_broken("runner:server", "extracted model not built")
     facts = S.gen_facts()
-    ctx.coverage_extra["facts"] = dict(zip(("pool_close_drops", "pool_fail_discards", "fork_parent_keeps", "pool_catches_base"), facts))
+    ctx.coverage_extra["facts"] = dict(zip(S.FACT_NAMES, facts))
     ctx.coverage_extra["rule"] = (
         "a case is one history against one real server: threaded 40% / thread pool 60% (2-4 workers, batch 1/2/10), TCP loopback or unix socket, toy authenticator 35%, "
         "service class 80% / shared instance; 5-11 (quick) / 5-23 steps: 30% a hostile client connects or continues (garbage frame, corrupt zlib with flag 1/2/255, truncated "
@@ -249,6 +286,7 @@ def run(ctx):
         S.evaluate(ctx, "witness", witnesses(), model, facts, farm, probe="c16", nontrivial_fn=nontrivial)
         S.evaluate(ctx, "random", [gen_history(r, ctx.quick) for _ in range(n_rand)], model, facts, farm, probe="c16", nontrivial_fn=nontrivial)
         S.evaluate(ctx, "forking", forking_jobs(r, n_fork), None, facts, farm, probe="c16", nontrivial_fn=nontrivial)
+        S.compared_floor(ctx)
     finally:
         farm.close()
 
